@@ -302,22 +302,12 @@ func (m *c17RefMetric) compute() {
 	m.nearFence = near
 	if nan > 0 {
 		// The statement does not say where a NaN stands among the ordered
-		// values. Judge the sample only if leaving the NaN out of the quartile
-		// computation selects the same values as Go's order (NaN first).
-		keep2, near2, ok2 := c17Within(m.values, noNaN)
-		if !ok2 || len(keep2) != len(keep) {
-			m.undecided = true
-			return
-		}
-		for i := range keep {
-			if keep[i] != keep2[i] {
-				m.undecided = true
-				return
-			}
-		}
-		if near2 {
-			m.nearFence = true
-		}
+		// values (first, last, or wherever a selection algorithm leaves it), so
+		// the quartiles - and with them the retained set - of a NaN-bearing
+		// sample are not decided. Only "a NaN is never within the fences" is
+		// judged for such a sample (c17NaNRetained).
+		m.undecided = true
+		return
 	}
 	sum := new(big.Rat)
 	for _, i := range keep {
@@ -635,10 +625,36 @@ func c17Build(c c17Case) *benchstat.Collection {
 	return coll
 }
 
+// c17NaNRetained is the one claim judged on collections whose retained sets
+// are otherwise undecided because of a NaN measurement: whatever the
+// quartiles are, a NaN does not lie within 1.5 IQR of them, so no metric may
+// retain one (and then report NaN statistics next to finite retained values).
+func c17NaNRetained(c c17Case) *kit.Fail {
+	coll := c17Build(c)
+	coll.Tables()
+	n := 0
+	for k, m := range coll.Metrics {
+		if m == nil {
+			continue
+		}
+		for _, v := range m.RValues {
+			if math.IsNaN(v) {
+				return kit.Failf("nan-retained", "config %q benchmark %q unit %q: a NaN measurement was retained (values %v, retained %v)", k.Config, k.Benchmark, k.Unit, m.Values, m.RValues)
+			}
+		}
+		n++
+	}
+	kit.Count("C17 metrics of NaN-bearing collections checked only for 'no NaN retained'", int64(n))
+	return nil
+}
+
 func c17Check(c c17Case) *kit.Fail {
 	model := c17BuildModel(c)
 	if model.undecided {
 		kit.Count("C17 cases skipped (a quartile falls on a NaN/Inf measurement or depends on where NaN is ordered)", 1)
+		if model.nonFinite > 0 && c.Test != "nil" && c.Test != "u" {
+			return c17NaNRetained(c)
+		}
 		return nil
 	}
 	if model.nearFence {
